@@ -1292,6 +1292,10 @@ func evmGenP(r *Rng, caller int, s evmSetup) *evmPCall {
 // evmSdPct is the chance (percent) that a generated body ends in SELFDESTRUCT; evmGen raises it for a fifth of the cases
 var evmSdPct = 4
 
+// evmRecv is the value the frame being generated has just received ("" = none): a quarter of the value-carrying
+// calls forward exactly that amount, so that the frame's balance returns to what it was when it was loaded
+var evmRecv = ""
+
 func evmGenBody(r *Rng, self int, depth int, s evmSetup) []evmInstr {
 	body := evmGenBody0(r, self, depth, s)
 	if len(body) > 0 && body[len(body)-1].Op == "revert" {
@@ -1327,9 +1331,15 @@ func evmGenBody0(r *Rng, self int, depth int, s evmSetup) []evmInstr {
 			ins := evmInstr{Op: "call", Addr: t, Catch: r.Chance(75), Record: r.Chance(40)}
 			if r.Chance(45) {
 				ins.Value = fmt.Sprint(1 + r.Intn(50))
+				if evmRecv != "" && evmRecv != "0" && r.Chance(30) {
+					ins.Value = evmRecv
+				}
 			}
 			if t >= aC1 {
+				saved := evmRecv
+				evmRecv = ins.Value
 				ins.Body = evmGenBody(r, t, depth+1, s)
+				evmRecv = saved
 			}
 			body = append(body, ins)
 		case k < 95:
@@ -1398,7 +1408,9 @@ func evmGen(r *Rng) evmInput {
 		if r.Chance(20) {
 			evmSdPct = 35
 		}
+		evmRecv = in.Value
 		in.Body = evmGenBody(r, in.To, 1, s)
+		evmRecv = ""
 		evmSdPct = 4
 	}
 	return in
